@@ -295,5 +295,10 @@ func (qr *queryRequest) reply(payload []byte) {
 	err := qr.s.nc.Publish(qr.msg.Reply, payload)
 	if err != nil {
 		qr.s.errorf("Error sending query reply %s: %s", qr.rname, err)
+		if errors.Is(err, nats.ErrMaxPayload) {
+			// The response is too large for the NATS server to accept.
+			// Let the requester know rather than leaving it to time out.
+			qr.s.nc.Publish(qr.msg.Reply, responseInternalError)
+		}
 	}
 }
